@@ -27,9 +27,8 @@ def gen_cases(tier, seed):
     cases = []
     progs = dict(programs.basic_programs())
     rng = plans.rng_for(seed, 'c04')
-    if tier == 'thorough':
-        for n in range(40):
-            progs['rnd%d' % n] = programs.random_program(rng, 5)
+    for n in range(40 if tier == 'thorough' else 6):
+        progs['rnd%d' % n] = programs.random_program(rng, 5)
     for name, prog in sorted(progs.items()):
         n = plans.slots_of(prog)
         plist = [p for p in plans.all_placements(n, ALPHABET, 1) if _has_kill(p)]
